@@ -50,6 +50,13 @@ theorem found_effect_contributes_its_own_dosage (cols : Cols) (x : String) (b : 
     genetic cols ((x, b) :: rest) i = b * (dosageAt cols x i : Rat) + genetic cols rest i :=
   genetic_cons_found cols x b rest hx i
 
+/-- **an effect list may name a variable twice** (two lines of a `.snplist` for one SNP): both terms belong to the sum – the
+    variable contributes `(β₁ + β₂) · dosage`, not the last or the first beta alone -/
+theorem variable_named_twice_adds_both_betas (cols : Cols) (x : String) (b₁ b₂ : Rat) (rest : List (String × Rat))
+    (hx : (cols.lookup x).isSome) (i : Nat) :
+    genetic cols ((x, b₁) :: (x, b₂) :: rest) i = (b₁ + b₂) * (dosageAt cols x i : Rat) + genetic cols rest i := by
+  rw [genetic_cons_found cols x b₁ _ hx, genetic_cons_found cols x b₂ rest hx, Rat.add_mul, Rat.add_assoc]
+
 /-- the order in which the effects are listed (`.snplist` order, `.hap` order) does not matter -/
 theorem effect_order_irrelevant (cols : Cols) (pre post : List (String × Rat)) (e f : String × Rat) (i : Nat) :
     genetic cols (pre ++ e :: f :: post) i = genetic cols (pre ++ f :: e :: post) i :=
